@@ -90,7 +90,7 @@ class Impl:
             "fields": [
                 {"name": key, "value": str(value)} for key, value in self.fields.items()
             ],
-            "signals": [signal.refection() for signal in self.signals],
+            "signals": [signal.reflection() for signal in self.signals],
             "meta": self.meta.reflection() if self.meta else None,
         }
 
